@@ -70,6 +70,14 @@ fn main() {
     let tbin_path = format!("{scratch}/case2.mmm");
     for line in cases.lines() {
         let line = line.unwrap();
+        if let Some(path) = line.strip_prefix("L ") {
+            // load a .mmm file exactly as the interpreter does and dump what was read
+            match guarded(|| bytecode::verif::load_and_dump(&unhex(path))) {
+                Ok(d) => writeln!(out, "load={}", hex(d.as_bytes())).unwrap(),
+                Err(e) => writeln!(out, "load={e}").unwrap(),
+            }
+            continue;
+        }
         if let Some(rest) = line.strip_prefix("S ") {
             let (multi, s) = rest.split_once(' ').unwrap();
             let s = unhex(s.trim_matches('-'));
